@@ -30,6 +30,8 @@ class Outcome(object):
         self.events = 0
         self.case_key = None
         self.discarded = None       # reason, when the run proves nothing
+        self.evals = 1              # executions of the code under test
+        self.case_weight = 1        # distinct non-trivial cases in this run
 
     def absorb(self, world):
         self.violations.extend(world.violations)
@@ -155,34 +157,35 @@ def json_eq(a, b):
     return a == b
 
 
-def check_calllog_roundtrip(out, tag, model, acc_ops, records, end, exc_info):
+def check_calllog_roundtrip(out, tag, model, acc_ops, records, end, exc_info,
+                            prefix='C01'):
     """C01 oracle: one record per written section, in order, same id / level
     / type, the options given or derived, content equal to what was
     written."""
     want = model.records
 
     if end != 'eof':
-        out.violate('C01.read-ends', '%s:%s:%s' % (
+        out.violate(prefix + '.read-ends', '%s:%s:%s' % (
             tag, end, (exc_info or {}).get('type')),
             {'exc': exc_info, 'yielded': len(records), 'written': len(want)})
         return False
 
     if len(records) != len(want):
-        out.violate('C01.count', tag,
+        out.violate(prefix + '.count', tag,
                     {'yielded': len(records), 'written': len(want)})
         return False
 
     for i, (g, w) in enumerate(zip(records, want)):
         for k in ('section', 'level', 'type'):
             if g.get(k) != w[k]:
-                out.violate('C01.header', '%s:%s' % (tag, k),
+                out.violate(prefix + '.header', '%s:%s' % (tag, k),
                             {'index': i, 'got': g.get(k), 'want': w[k]})
                 return False
 
         d = cmp_options(g.get('options'), w['options'])
 
         if d is not None:
-            out.violate('C01.options', '%s:%s:%s' % (tag, w['type'], d),
+            out.violate(prefix + '.options', '%s:%s:%s' % (tag, w['type'], d),
                         {'index': i, 'got': g.get('options'),
                          'want': w['options']})
             return False
@@ -198,7 +201,7 @@ def check_calllog_roundtrip(out, tag, model, acc_ops, records, end, exc_info):
                 ok = type(gv) is type(val) and gv == val
 
             if not ok:
-                out.violate('C01.content', '%s:%s' % (tag, w['type']),
+                out.violate(prefix + '.content', '%s:%s' % (tag, w['type']),
                             {'index': i, 'got': gv, 'want': val,
                              'eff': w['_eff'], 'kind': w['_kind']})
                 return False
@@ -228,7 +231,7 @@ def raw_meta_variant(model_rec, op):
     return R.header(model_rec['section'], opts), body
 
 
-def check_bytes_against_model(out, tag, data, model, acc_ops):
+def check_bytes_against_model(out, tag, data, model, acc_ops, prefix='C02'):
     """C02 byte oracle.  Byte-for-byte equality with the reference
     serializer; one deliberate tolerance: a metadata body may be either of
     the two conformant renderings (escaped / raw non-ASCII)."""
@@ -270,14 +273,14 @@ def check_bytes_against_model(out, tag, data, model, acc_ops):
             k += 1
 
         where = 'header' if k < len(hdr) else 'body'
-        out.violate('C02.bytes', '%s:%s:%s' % (tag, rec['type'], where),
+        out.violate(prefix + '.bytes', '%s:%s:%s' % (tag, rec['type'], where),
                     {'section_index': ri, 'offset': pos + k,
                      'want': want[max(0, k - 20):k + 20],
                      'got': got[max(0, k - 20):k + 20]})
         return False
 
     if pos != len(data):
-        out.violate('C02.bytes', '%s:trailing' % tag,
+        out.violate(prefix + '.bytes', '%s:trailing' % tag,
                     {'extra': data[pos:pos + 40]})
         return False
 
